@@ -12,7 +12,7 @@ RULE = ("amm: L1 histories on the real message server (three swap routes, fee ov
         "(and every route of the fee-override history) also with the stated minimum at the exact output (accepted), one above it and ~0.5% above it (refused), "
         "the exact output measured by the same message on a discarded copy of the state; discarded transactions (accepted admin changes of the running rate, "
         "the fee parameters, the symmetry threshold, the rewards parameters on a branch that is dropped) before swaps of the same block; running rate and fee "
-        "parameters the bound is judged against are decoded from the raw store, not read through the keeper; "
+        "parameters the bound is judged against are decoded from the raw store, not read through the keeper; ammdir D27: a policy compounding the running rate to 2^25-1 through the real BeginBlocker, swaps bounded with the stored rate; "
         "calc: CalcSwapResult on log-uniform depths 1..2^110, amounts to 2^128, boundary values, fee rates in [0,1], "
         "ratio-shifting rates 0..1e6; non-trivial = distinct input with a non-zero pool and amount")
 TRUSTED_BASE = [
